@@ -88,7 +88,9 @@ struct Local {
 /// Runs one execution of `f` with the given prefix.
 pub fn run_one(f: &(dyn Fn() + Sync), prefix: &[(u32, u32)], trace: bool) -> (ExecOut, Option<String>) {
     chooser::begin(prefix, trace);
+    crate::crash::set_current(prefix);
     let r = crate::util::catch(|| f());
+    crate::crash::clear_current();
     let out = chooser::end();
     (out, r.err())
 }
